@@ -18,13 +18,13 @@ From FnSym Require Export FnToSym.
 
 Definition cenv := list (N * list (name * Q)).
 
-Record mfun := mkMFun { mf_params : list name; mf_mod : N; mf_body : stmts }.
+Record mfun := mkMFun { mf_params : list name; mf_defaults : list Q; mf_mod : N; mf_body : stmts }.
 
 Definition consts_of (E : cenv) (m : N) : list (name * Q) :=
   match assoc m E with Some t => t | None => [] end.
 
 Definition at_env (E : cenv) (mf : mfun) : fundef :=
-  mkFun (mf_params mf) (consts_of E (mf_mod mf)) (mf_body mf).
+  mkFun (mf_params mf) (mf_defaults mf) (consts_of E (mf_mod mf)) (mf_body mf).
 
 (** the environment the translator reads: [first] = tables remembered from earlier lookups *)
 Definition env_used (fs : facts) (first now : cenv) : option cenv :=
